@@ -32,8 +32,8 @@ type ake struct {
 	state authState
 	keys  keyManagementContext
 
-	// ourCommitPending is set when our D-H Commit won a collision and was sent again:
-	// the conversation is still waiting for the D-H Key that answers it
+	// ourCommitPending is set by the D-H Commit handler when our commit won a collision and was
+	// sent again; processAKE then keeps the conversation waiting for the D-H Key that answers it
 	ourCommitPending bool
 
 	lastStateChange time.Time
